@@ -1,5 +1,5 @@
 From Coq Require Import Extraction ExtrOcamlBasic NArith ZArith List.
-From Storage Require Import Base.Bytes Store.Model Store.XOps Store.TxCtx Store.LinkOne Store.Events Store.TxQuiet.
+From Storage Require Import Base.Bytes Store.Model Store.XOps Store.TxCtx Store.LinkOne Store.Events Store.TxQuiet Store.TxPanic.
 Extraction Language OCaml.
 Definition force_types : nat * N * Z := (O, 0%N, 0%Z).
-Extraction "store_model.ml" force_types st_empty run_tx find_store root_of is_child children_of query_ids valid_ids find_ids run_xtx ctx_update run_ltx hook_counts std_hooks.
+Extraction "store_model.ml" force_types st_empty run_tx find_store root_of is_child children_of query_ids valid_ids find_ids run_xtx ctx_update run_ltx hook_counts std_hooks ptx_update p_events.
